@@ -192,10 +192,7 @@ Proof. vm_compute. split; reflexivity. Qed.
 Theorem C19_repr_calendar : forall z : Z,
   let '(y, m, d) := civil_from_days z in
   1 <= m <= 12 /\ 1 <= d <= month_len y m /\ days_from_civil y m d = z.
-Proof.
-  intros z. pose proof (civil_valid z) as V. pose proof (days_civil_inverse z) as I.
-  destruct (civil_from_days z) as [[y m] d]. tauto.
-Qed.
+Proof. exact civil_spec. Qed.
 Print Assumptions C19_repr_calendar.
 
 (* the size shown with ',' separators: removing the commas gives sign + decimal digits; a
